@@ -73,7 +73,8 @@ def gen(rng, tier):
     return {'period': P, 'pu': pu, 'du': du, 'tol': tol, 'exact': exact, 'vars': vars_, 'ast': ast, 'data': data,
             'maxlen': maxlen, 'classes': classes, 'longs': longs, 't0': t0,
             'online_cls': 'dt_on' if rng.random() < 0.6 else 'dt', 'offline_cls': 'dt_off' if rng.random() < 0.5 else 'dt',
-            'set_sampling': True if (P, pu, tol) != (1, 's', 0.1) else rng.random() < 0.5}
+            'set_sampling': True if (P, pu, tol) != (1, 's', 0.1) else rng.random() < 0.5,
+            'semantics': rng.choice([None, None, 'output-robustness', 'input-robustness', 'output-vacuity', 'input-vacuity'])}
 
 
 def period_in_stamp_unit(sc):
@@ -142,6 +143,8 @@ def ref_counts(stamps, sc):
 
 
 def spec_desc(sc, cls):
+    if sc.get('semantics'):
+        cls = 'dt'         # only the combined class takes a semantics argument (the online-only / offline-only classes are STANDARD)
     nt = {'period': sc['period'], 'pu': sc['pu'], 'du': sc['du'], 'style': 'plain'}
     d = {'cls': cls, 'vars': common.var_decls(sc['vars']),
          'spec': 'out = ' + sg.to_text(sc['ast'], None, units.bounds_printer(nt, None)) + ';'}
@@ -149,6 +152,8 @@ def spec_desc(sc, cls):
         d['unit'] = sc['du']
     if sc.get('set_sampling', True):
         d['sampling'] = [sc['period'], sc['pu'], sc['tol']]
+    if sc.get('semantics'):
+        d['semantics'] = sc['semantics']      # the counter does not depend on the (interface-aware) semantics of the monitor
     return d
 
 
